@@ -24,6 +24,13 @@ def families(tier, seed):
         for vec in (False, True):
             out.append(dict(tag=f"U28-complex-and-numpy-scalar-overrides/{how}", features=dict(complex_override=True, how=how),
                             kind="complex_override", how=how, vec=vec))
+    for how in ("update_var", "node_values"):
+        for vec in (False, True):
+            out.append(dict(tag=f"U30-one-subcircuit-object-used-twice/{how}", features=dict(shared_subcircuit_object=True, how=how),
+                            kind="shared_subcircuit", how=how, vec=vec))
+    for how in ("update_var", "node_values"):
+        out.append(dict(tag=f"U31-real-declared-parameter-complex-override/{how}", features=dict(float_declared_complex=True, how=how),
+                        kind="float_declared_complex", how=how, vec=False))
     for vec in (False, True):
         out.append(dict(tag="U29-to_yaml-between-two-compilations", features=dict(yaml_between=True), kind="yaml_between", vec=vec))
     for how in ("update_var", "node_values"):
@@ -152,7 +159,54 @@ def yaml_between_compiles_case(c):
     return dict(status="violated" if fails else "ok", fails=fails[:3])
 
 
+def float_declared_complex_case(c):
+    """A parameter declared with a real literal in a complex-valued model, overridden with a complex value."""
+    import numpy as np
+    from pyrates import OperatorTemplate, NodeTemplate, CircuitTemplate
+    op = OperatorTemplate(name="o", path=None, equations=["d/dt * z = -k*z"], variables={"z": "output(complex)", "k": 2.0})
+    tpl = CircuitTemplate(name="fc", path=None, nodes={"a": NodeTemplate(name="pop", path=None, operators=[op])})
+    kw = dict(step_size=1e-3, vectorize=c["vec"], verbose=False, in_place=False, clear=True, float_precision="complex128", file_name="fdc")
+    if c["how"] == "update_var":
+        tpl.update_var(node_vars={"a/o/k": 1.0 + 2.0j})
+    else:
+        kw["node_values"] = {"a/o/k": 1.0 + 2.0j}
+    f, a, names, m = tpl.get_run_func("vf", **kw)
+    got = complex(np.asarray(dict(zip(names, a))["a/o/k"]).ravel()[0])
+    fails = []
+    if abs(got - (1.0 + 2.0j)) > 1e-12:
+        fails.append(dict(clause="a complex override of a parameter declared with a real literal reaches the compiled function unchanged",
+                          observed=str(got), expected=str(1.0 + 2.0j)))
+    return dict(status="violated" if fails else "ok", fails=fails)
+
+
+def shared_subcircuit_case(c):
+    """A hierarchy whose two sub-circuits are ONE CircuitTemplate object: update_var / node_values addressed to c1/... leaves c2/... alone."""
+    import numpy as np
+    from pyrates import OperatorTemplate, NodeTemplate, CircuitTemplate
+    op = OperatorTemplate(name="o", path=None, equations=["d/dt * x = -k*x + inp"], variables={"x": "output(1.0)", "k": 2.0, "inp": "input(0.0)"})
+    node = NodeTemplate(name="pop", path=None, operators=[op])
+    sub = CircuitTemplate(name="S", path=None, nodes={"a": node, "b": node}, edges=[("a/o/x", "b/o/inp", None, {"weight": 0.5})])
+    top = CircuitTemplate(name="T", path=None, circuits={"c1": sub, "c2": sub}, edges=[("c1/a/o/x", "c2/a/o/inp", None, {"weight": 0.1})])
+    kw = dict(step_size=1e-3, vectorize=c["vec"], verbose=False, in_place=False, clear=True, float_precision="float64", file_name="shsub")
+    if c["how"] == "update_var":
+        top.update_var(node_vars={"c1/a/o/k": 9.0})
+    else:
+        kw["node_values"] = {"c1/a/o/k": 9.0}
+    f, a, names, m = top.get_run_func("vf", **kw)
+    got = np.concatenate([np.asarray(v, dtype=float).ravel() for n, v in zip(names, a) if n.endswith("/o/k")])
+    want = np.array([9.0, 2.0, 2.0, 2.0])
+    fails = []
+    if got.shape != want.shape or not np.allclose(got, want):
+        fails.append(dict(clause="an override addressed to c1/a leaves the equally built c2/a alone (sub-circuits that are one object)",
+                          observed=got.tolist(), expected=want.tolist()))
+    return dict(status="violated" if fails else "ok", fails=fails)
+
+
 def case_fn(c):
+    if c["kind"] == "float_declared_complex":
+        return float_declared_complex_case(c)
+    if c["kind"] == "shared_subcircuit":
+        return shared_subcircuit_case(c)
     if c["kind"] == "complex_override":
         return complex_override_case(c)
     if c["kind"] == "yaml_between":
